@@ -1961,16 +1961,35 @@ def _thread_try(blocks, d, cont, region):
         blocks.append(c2)
         return len(blocks) - 1
 
+    def chain_to_cont(b):
+        """blocks from b up to (not including) cont when b leads there through empty goto blocks and drops of locals only
+        (the tail of an inlined helper: `drop(iter); goto`), else None"""
+        out = []
+        while b != cont:
+            if b in out or b >= len(blocks) or len(out) > 8:
+                return None
+            bb = blocks[b]
+            if bb['term']['k'] not in ('goto', 'drop') or bb['term'].get('target') is None \
+                    or [x for x in bb['stmts'] if x['k'] not in ('storage_live', 'storage_dead', 'nop')
+                        and not (x['k'] == 'assign' and not x['lhs']['p'] and (x['rv'].get('k') == 'discr' or (x['rv'].get('k') == 'use' and 'const' in x['rv']['op'])))]:   # drop flags, drop elaboration
+                return None
+            out.append(b)
+            b = bb['term']['target']
+        return out
+
     def reaches_cont(b, seen=()):
-        """b leads to cont through empty goto blocks only"""
-        if b == cont:
-            return True
-        if b in seen or b >= len(blocks):
-            return False
-        bb = blocks[b]
-        if bb['term']['k'] != 'goto' or [x for x in bb['stmts'] if x['k'] not in ('storage_live', 'storage_dead', 'nop')]:
-            return False
-        return reaches_cont(bb['term']['target'], seen + (b,))
+        return chain_to_cont(b) is not None
+
+    def via_chain(b, final):
+        """a private copy of the chain from b to cont (drops are kept) that ends in `final` instead of cont"""
+        nxt = final
+        for x in reversed(chain_to_cont(b) or []):
+            nb = dict(blocks[x])
+            nb['term'] = dict(nb['term'], target=nxt, threaded='chain')
+            nb['stmts'] = list(nb['stmts'])
+            blocks.append(nb)
+            nxt = len(blocks) - 1
+        return nxt
     for bi in list(region):
         bb = blocks[bi]
         if bb.get('cleanup') or bb['term']['k'] != 'goto':
@@ -1984,7 +2003,7 @@ def _thread_try(blocks, d, cont, region):
         if kind in ('Ok', 'Err') and payload is not None and reaches_cont(bb['term']['target']):
             if 'move' in payload:
                 payload = {'copy': payload['move']}
-            bb['term'] = dict(bb['term'], target=copy_pair(kind, payload), threaded_from=bb['term']['target'])
+            bb['term'] = dict(bb['term'], target=via_chain(bb['term']['target'], copy_pair(kind, payload)), threaded_from=bb['term']['target'])
     # `inner()?` inside the inlined body: `_d = from_residual(..)` is an Err by construction
     for bi in list(region):
         bb = blocks[bi]
@@ -1993,7 +2012,7 @@ def _thread_try(blocks, d, cont, region):
             continue
         if 'FromResidual' in (t2['callee'].get('path') or '') and (t2['callee'].get('path') or '').endswith('::from_residual') \
                 and 'std::result::Result' in (t2['callee'].get('path') or '') and t2['dest'] == {'l': d, 'p': []} and reaches_cont(t2['target']):
-            bb['term'] = dict(t2, target=copy_pair('Err', None), threaded_from=t2['target'])
+            bb['term'] = dict(t2, target=via_chain(t2['target'], copy_pair('Err', None)), threaded_from=t2['target'])
     # when every way into `cont` has been threaded, the generic Try::branch is dead: its definition of `_c` goes away
     preds = 0
     for bj, bb in enumerate(blocks):
